@@ -62,7 +62,12 @@ type specRes struct {
 	err string
 	us  []int // matching uuid numbers (order as index order when det)
 	det bool
-	lim int64
+	lim int64 // what is left of the limit (-1: none was ever set)
+	// C13: the search is a single comparison or a chain of And refinements (no Or) and its last
+	// comparison is on the indexed field ordFld (-1: the property promises no order)
+	chain  bool
+	ordFld int
+	keyAt  map[int]string // key of ordFld of every match WHEN THE SEARCH WAS EVALUATED (the snapshot's order)
 }
 
 func NewSpec(c Cfg) *Spec {
@@ -537,8 +542,20 @@ func (s *Spec) checkSearch(e *Exec, t, r []string) {
 	}
 	fld, _ := strconv.Atoi(t[i])
 	op, probe := t[i+1], t[i+2]
-	res := &specRes{lim: -1}
+	res := &specRes{lim: -1, ordFld: -1}
 	s.results[sid] = res
+	res.chain = t[0] == "search" || (t[0] == "and" && old != nil && old.chain)
+	if res.chain && s.cfg.indexed(fld) {
+		res.ordFld = fld
+	}
+	defer func() {
+		if res.ordFld >= 0 && res.err == "ok" {
+			res.keyAt = map[int]string{}
+			for _, u := range res.us {
+				res.keyAt[u] = s.live[u].K[res.ordFld]
+			}
+		}
+	}()
 	if old != nil && old.err == "unchecked" {
 		res.err = "unchecked"
 		return
@@ -624,6 +641,7 @@ func (s *Spec) checkCollect(e *Exec, t, r []string) {
 	if t[0] == "collect" {
 		mode, _ = strconv.Atoi(t[4])
 	}
+	s.checkOrder(e, t, r, sr)
 	if mode == 2 || len(r) < 2 {
 		return
 	}
@@ -645,6 +663,92 @@ func (s *Spec) checkCollect(e *Exec, t, r []string) {
 			s.fail(e, "C20", "%s returned deleted object #%d", t[0], f.U)
 		} else if cur.String() != tok {
 			s.fail(e, "C01", "%s returned stale content for #%d", t[0], f.U)
+		}
+	}
+}
+
+// checkOrder (C13): what Collect / One returned, in the order it was returned (e.lastColl, before
+// any canonicalisation), against the property itself: non-increasing in the last searched field
+// when it is indexed (non-decreasing when reversed), exactly min(limit, matches) objects, One = an
+// object holding the greatest key (smallest when reversed).  Only when no matched object was
+// deleted since the evaluation (then an error or an omission is allowed: C20).
+func (s *Spec) checkOrder(e *Exec, t, r []string, sr *specRes) {
+	for _, u := range sr.us {
+		if _, ok := s.live[u]; !ok {
+			sr.lim = -2 // unknown from now on
+			return
+		}
+	}
+	if s.off || sr.lim == -2 {
+		return
+	}
+	rev := e.lastRev
+	cur := sr.lim
+	if t[0] == "one" {
+		cur = 1
+	} else if l, _ := strconv.ParseInt(t[2], 10, 64); l >= 0 {
+		cur = l
+	}
+	want := int64(len(sr.us))
+	if cur >= 0 && cur < want {
+		want = cur
+	}
+	// what a Collect WITHOUT a new Limit returns after an earlier limited Collect (the code keeps
+	// the unconsumed remainder) is outside the property text: not judged here
+	explicit := t[0] == "one" || sr.lim == -1 || cur != sr.lim || (t[0] == "collect" && t[2] != "-1")
+	if t[0] == "one" {
+		if len(sr.us) == 0 {
+			if r[0] != "noobject" {
+				s.fail(e, "C13", "one on an empty result: got %s want the no-object error", r[0])
+			}
+			return
+		}
+	}
+	if r[0] != "ok" {
+		return // read errors are judged elsewhere (C01 / C19)
+	}
+	got := e.lastColl
+	if explicit && int64(len(got)) != want {
+		s.fail(e, "C13", "%s limit=%d on %d matches returned %d objects, want %d", t[0], cur, len(sr.us), len(got), want)
+	}
+	if cur >= 0 {
+		sr.lim = cur - int64(len(got))
+		if sr.lim < 0 {
+			sr.lim = 0
+		}
+	}
+	if sr.ordFld < 0 {
+		return
+	}
+	f := sr.ordFld
+	for _, g := range got {
+		if _, ok := sr.keyAt[g.U]; !ok {
+			return // not a match of the snapshot: C20's business
+		}
+	}
+	for i := 1; i < len(got); i++ {
+		c := keyCmp(sr.keyAt[got[i-1].U], sr.keyAt[got[i].U])
+		if c == 2 || (!rev && c < 0) || (rev && c > 0) {
+			s.fail(e, "C13", "%s rev=%v: result not ordered on indexed field %d: %s before %s", t[0], rev, f, sr.keyAt[got[i-1].U], sr.keyAt[got[i].U])
+			break
+		}
+	}
+	// the returned prefix holds the extreme keys of the match set
+	if len(got) > 0 && len(got) < len(sr.us) {
+		last := sr.keyAt[got[len(got)-1].U]
+		in := map[int]bool{}
+		for _, g := range got {
+			in[g.U] = true
+		}
+		for _, u := range sr.us {
+			if in[u] {
+				continue
+			}
+			c := keyCmp(sr.keyAt[u], last)
+			if c != 2 && ((!rev && c > 0) || (rev && c < 0)) {
+				s.fail(e, "C13", "%s rev=%v limit=%d: #%d (key %s) was left out although it precedes the last returned key %s on field %d", t[0], rev, cur, u, sr.keyAt[u], last, f)
+				break
+			}
 		}
 	}
 }
